@@ -92,6 +92,14 @@ def Ex.subMergers : Ex → List Ex → List (Option SM)
       else (w.subMergers subs).map (fun sm => sm.map (SM.shifted off))
   | .unary _ w, subs => w.subMergers subs
 
+/-- `bytetree.New` (/repo 22d56a6): of the input columns with the same printed expression only
+    the first is merged into the outputs; the sub-mergers of the later ones are cleared -/
+def dedupInputs (ins : List Ex) (sms : List (Option SM)) : List (Option SM) :=
+  (sms.zipIdx).map (fun (sm, i) =>
+    match ins[i]? with
+    | some e => if (ins.take i).any (fun e' => e'.sameStr e) then none else sm
+    | none => sm)
+
 /-- Go's `%` on ints (sign of the dividend) -/
 def goMod (a b : Int) : Int := a.tmod b
 
